@@ -39,6 +39,7 @@ ASSUMPTIONS = ['constant RDMs excluded', 'optimality only for cosine, corr, rho-
 REQUIRED = ['check:upper_unbeatable', 'check:pooled_attains_upper', 'check:lower_is_leave_one_out',
             'check:left_out_group_has_no_influence', 'check:lower_le_upper', 'check:invariance',
             'check:cv_ceiling', 'check:cv_ceiling_pattern_only', 'check:ceiling_leaves_data_unchanged',
+            'check:default_grouping',
             'check:common_nan_ignored', 'candidates_scored', 'pool_calls_traced']
 REACH = ['boot_noise_ceiling', 'cv_noise_ceiling', 'pool_rdm', 'sets_leave_one_out_rdm', '_nan_mean',
          '_nan_rank_data']
@@ -111,14 +112,17 @@ def make_data(rng, method, grouping=None, nan=False):
         keep[rng.choice(v.shape[1], size=k, replace=False)] = False
     if any(np.ptp(r[keep]) < 1e-9 for r in v) or keep.sum() < 4:
         return None
+    int_storage = kind == 'ties' and not nan and bool(rng.integers(2))   # ordinal data stored as integers
     return dict(v=v, n_rdm=n_rdm, n_cond=n_cond, kind=kind, grouping=grouping, grp=[labs[i] for i in g],
-                lk=lk, keep=keep, method=method)
+                lk=lk, keep=keep, method=method, int_storage=int_storage)
 
 
 def build(case, v=None):
     v = case['v'] if v is None else v
     a = v.copy()
     a[:, ~case['keep']] = np.nan
+    if case.get('int_storage') and case['keep'].all() and np.all(a == np.round(a)):
+        a = a.astype(np.int64)
     return RDMs(a, rdm_descriptors={'uid': list(range(case['n_rdm'])), 'grp': list(case['grp'])},
                 pattern_descriptors={'cond': [f'c{i}' for i in range(case['n_cond'])]})
 
@@ -153,6 +157,20 @@ def run_boot(ctx, method):
         ctx.fail('ceiling_leaves_data_unchanged', dict(sig, what='data_modified'), f'boot_noise_ceiling(method={method!r}) '
                  f'altered the data RDMs it was given', wit())
         return
+    # the default grouping is by the 'index' descriptor: copies of one RDM (a stack resampled with repetition keeps the
+    # index values) form one group, so relying on the default equals naming 'index'
+    sel = sorted(int(i) for i in rng.integers(0, case['n_rdm'], size=case['n_rdm']))
+    if len(set(sel)) >= 2 and len(set(sel)) < len(sel):
+        dup = build(case).subsample('index', sel)
+        ok_d, by_default = ctx.guarded('default_grouping', sig, boot_noise_ceiling, dup, method=method, data=wit)
+        ok_e, by_index = ctx.guarded('default_grouping', sig, boot_noise_ceiling, dup, method=method,
+                                     rdm_descriptor='index', data=wit)
+        if ok_d and ok_e:
+            ctx.case('default_grouping', sig)
+            if not close(np.array(by_default, dtype=float), np.array(by_index, dtype=float), 1e-12, 1e-14):
+                ctx.fail('default_grouping', dict(sig, what='default_not_index'), f'ceilings with the default grouping '
+                         f'{tuple(map(float, by_default))} != ceilings grouped by index {tuple(map(float, by_index))} on a '
+                         f'stack resampled with repetition (index values {sel})', wit(selection=sel))
     m2 = gen.pick(rng, [m for m in ('cosine', 'corr', 'rho-a') if m != method])
     ok_a, again = ctx.guarded('ceiling_leaves_data_unchanged', sig, boot_noise_ceiling, rd, method=m2, rdm_descriptor=by,
                               data=wit)
